@@ -235,6 +235,39 @@ def pipeline (aesni : Bool) (raw : List Cfg) (sni : Bytes) (localAddr : Option B
       | some b => .cfg e.idx b
       | none => .nothing
 
+/-! ### what a handshake shows (crypto/tls and certmagic: modelled for the explored profiles only,
+nothing below is used by a theorem about crypto/tls itself) -/
+
+/-- outcome of a handshake as a test client sees it -/
+inductive HS where
+  | fail
+  | ok (version : Nat) (san : Bytes) (certRequested : Bool)
+deriving Repr, DecidableEq
+
+/-- certmagic's cache lookup by server name: exact, then wildcard labels (no catch-all) -/
+def certFor (raw : List Cfg) (name : Bytes) : Option Bytes :=
+  (hostCands name).find? (fun k => raw.any (fun c => c.hostname == k))
+
+/-- the ECDSA CBC suites usable below TLS 1.2 (the test certificates are ECDSA P-256) -/
+def cbcECDSA : List Nat := [0xc009, 0xc00a]
+
+/-- a client offering versions `cmin..cmax` with server name `sni` against the listener of `raw`:
+config by `pipeline`, certificate by `certFor`, version = the highest common one -/
+def handshake (aesni : Bool) (raw : List Cfg) (sni : Bytes) (cmin cmax : Nat) (localAddr : Option Bytes) : HS :=
+  match pipeline aesni raw sni localAddr with
+  | .cfg _ b =>
+    let name := normalizedName sni
+    if name = [] then .fail
+    else
+      match certFor raw name with
+      | none => .fail
+      | some san =>
+        let v := min cmax b.maxV
+        if v < max cmin b.minV then .fail
+        else if v < tls12 ∧ !(b.ciphers.any (fun x => cbcECDSA.contains x)) then .fail
+        else .ok v san (b.clientAuth != 0)
+  | _ => .fail
+
 /-- the strict host-matching branch of `serveHTTP`: `true` = answered 403 -/
 def strictSNIForbidden (c : Cfg) (tlsConn : Bool) (sni hostname : Bytes) : Bool :=
   !c.disableSNIMatching && tlsConn && c.clientAuth != 0 && lower sni != lower hostname
